@@ -17,7 +17,7 @@
 (***************************************************************************)
 EXTENDS Integers, Sequences, FiniteSets, TLC, Json
 
-CONSTANTS Fams,        \* subset of {"csvc","nusvc","oneclass","esvr","nusvr","f32","offset"}
+CONSTANTS Fams,        \* subset of {"csvc","nusvc","oneclass","esvr","nusvr","f32","offset","poly1"}
           MinSmall, MaxSmall,
           Seeds, MedSizes,
           Lite         \* TRUE: reduced parameter grids for the small families (quick tier)
@@ -28,6 +28,9 @@ Kern(name) ==
   CASE name = "lin"   -> [k |-> "lin",  c |-> 0, d |-> 1, w |-> <<1, 1>>]
     [] name = "poly2" -> [k |-> "poly", c |-> 1, d |-> 2, w |-> <<1, 1>>]
     [] name = "poly3" -> [k |-> "poly", c |-> 0, d |-> 3, w |-> <<1, 1>>]
+    \* degree one: linear in the samples, but (for c # 0) not the linear kernel: K = <x,x'> + c
+    [] name = "p1c0"  -> [k |-> "poly", c |-> 0, d |-> 1, w |-> <<1, 1>>]
+    [] name = "p1c2"  -> [k |-> "poly", c |-> 2, d |-> 1, w |-> <<1, 1>>]
     [] name = "rbf2"  -> [k |-> "rbf",  c |-> 0, d |-> 1, w |-> <<2, 1>>]
     [] name = "rbf5"  -> [k |-> "rbf",  c |-> 0, d |-> 1, w |-> <<5, 1>>]
 
@@ -92,7 +95,8 @@ Xo == <<-1, 0, 2>>
 OneclassSmall ==
   {Mk("oneclass", [i \in DOMAIN s |-> <<Xo[s[i]]>>], [i \in DOMAIN s |-> 1], 1, kern, One, One, nu, One, One, shr, "f64", FALSE) :
      s \in UNION {Sorted(3, len) : len \in MinSmall..(MaxSmall + 1)},
-     kern \in (IF Lite THEN {"lin", "rbf2"} ELSE {"lin", "poly2", "rbf2"}), nu \in {<<1, 4>>, <<1, 2>>, <<1, 1>>}, shr \in BOOLEAN}
+     kern \in (IF Lite THEN {"lin", "rbf2", "p1c0", "p1c2"} ELSE {"lin", "poly2", "rbf2", "p1c0", "p1c2"}),
+     nu \in {<<1, 4>>, <<1, 2>>, <<1, 1>>}, shr \in BOOLEAN}
 
 (* -------------------------------------------- small regression sets       *)
 RX(l) == <<Xs3[((l - 1) % 3) + 1]>>
@@ -126,7 +130,7 @@ NusvcMed ==
      s \in Seeds, n \in MedSizes, kern \in {"lin", "rbf5"}, nu \in {<<1, 4>>, <<1, 2>>}, shr \in BOOLEAN}
 OneclassMed ==
   {Mk("oneclass", MedX(s, n), [i \in 1..n |-> 1], 2, kern, One, One, nu, One, One, shr, "f64", FALSE) :
-     s \in Seeds, n \in MedSizes, kern \in {"lin", "rbf5"}, nu \in {<<1, 4>>, <<1, 2>>}, shr \in BOOLEAN}
+     s \in Seeds, n \in MedSizes, kern \in {"lin", "rbf5", "p1c2"}, nu \in {<<1, 4>>, <<1, 2>>}, shr \in BOOLEAN}
 EsvrMed ==
   {Mk("esvr", MedX(s, n), MedR(s, n), 2, kern, One, One, One, ce[1], ce[2], shr, "f64", FALSE) :
      s \in Seeds, n \in MedSizes, kern \in {"lin", "poly2", "rbf5"},
@@ -177,7 +181,30 @@ OffsetCases ==
   {Shift(k, o) : k \in {b \in OffMedBase : b.kind # "csvc" \/ (Npos(b.inp.y) > 0 /\ Nneg(b.inp.y) > 0)}, o \in OffsetsMed}
   \cup {Shift(k, o) : k \in OffSmallBase, o \in OffsetsSmall}
 
+(* -------------------------------------------- polynomial kernels of degree one, every formulation       *)
+(* K = <x,x'> + c is linear in the samples; with c # 0 it is not the linear kernel (a pre-combined          *)
+(* hyperplane loses c * sum(alpha), which only vanishes under an equality constraint sum = 0).              *)
+Poly1Cases ==
+  {Mk("csvc", [i \in DOMAIN s |-> LX(s[i])], [i \in DOMAIN s |-> LY(s[i])], 1, kc[1], kc[2][1], kc[2][2], One, One, One, shr, "f64", ~shr) :
+     s \in {t \in Sorted(6, MinSmall) : BothLabels(t)}, kc \in {<<"p1c0", W2>>, <<"p1c2", W3>>}, shr \in BOOLEAN}
+  \cup {k \in {Mk("nusvc", [i \in DOMAIN s |-> LX(s[i])], [i \in DOMAIN s |-> LY(s[i])], 1, kern, One, One, <<1, 2>>, One, One, shr, "f64", ~shr) :
+                 s \in {t \in Sorted(6, MinSmall + 1) : BothLabels(t)}, kern \in {"p1c0", "p1c2"}, shr \in BOOLEAN} :
+          NuFeasible(k.inp.y, k.inp.nu) /\ Separable(k.inp.x, k.inp.y)}
+  \cup {Mk("esvr", [i \in DOMAIN s |-> RX(s[i])], [i \in DOMAIN s |-> RY(s[i])], 1, kc[1], One, One, One, kc[2][1], kc[2][2], shr, "f64", FALSE) :
+          s \in Sorted(6, MinSmall), kc \in {<<"p1c0", E1>>, <<"p1c2", E2>>}, shr \in BOOLEAN}
+  \cup {Mk("nusvr", [i \in DOMAIN s |-> RX(s[i])], [i \in DOMAIN s |-> RY(s[i])], 1, "p1c2", One, One, <<1, 2>>, One, One, shr, "f64", FALSE) :
+          s \in Sorted(6, MinSmall), shr \in BOOLEAN}
+  \cup {k \in {Mk("csvc", MedX(s, 12), MedY(s, 12, 0), 2, "p1c2", <<5, 1>>, One, One, One, One, shr, "f64", ~shr) :
+                 s \in Seeds, shr \in BOOLEAN} : Npos(k.inp.y) > 0 /\ Nneg(k.inp.y) > 0}
+  \cup {k \in {Mk("nusvc", MedX(s, 12), MedY(s, 12, 0), 2, "p1c2", One, One, <<1, 4>>, One, One, shr, "f64", ~shr) :
+                 s \in Seeds, shr \in BOOLEAN} : NuFeasible(k.inp.y, k.inp.nu)}
+  \cup {Mk("esvr", MedX(s, 12), MedR(s, 12), 2, "p1c2", One, One, One, E2[1], E2[2], shr, "f64", FALSE) : s \in Seeds, shr \in BOOLEAN}
+  \cup {Mk("nusvr", MedX(s, 12), MedR(s, 12), 2, "p1c2", One, One, <<1, 4>>, One, One, shr, "f64", FALSE) : s \in Seeds, shr \in BOOLEAN}
+  \cup {Mk("oneclass", [i \in DOMAIN s |-> <<Xo[s[i]]>>], [i \in DOMAIN s |-> 1], 1, "p1c2", One, One, <<1, 2>>, One, One, shr, "f32", FALSE) :
+          s \in Sorted(3, MinSmall + 1), shr \in BOOLEAN}
+
 All ==
+  (IF "poly1" \in Fams THEN Poly1Cases ELSE {}) \cup
   (IF "offset" \in Fams THEN OffsetCases ELSE {}) \cup
   (IF "csvc" \in Fams THEN CsvcSmall \cup {k \in CsvcMed : Npos(k.inp.y) > 0 /\ Nneg(k.inp.y) > 0} ELSE {}) \cup
   (IF "nusvc" \in Fams
